@@ -173,4 +173,135 @@ theorem step_effect (E : Env) (k : Nat) (p : Pool) (op : Op) :
     | error e => exact .same ..
     | ok v => exact .same ..
 
+/-! ### the flags -/
+
+theorem relink_flags (p : Pool) (o : ObjId) (n : Name) (d : DelegInfo) (evs : List Event) :
+    (relink p o n d evs).hookExc = 0 ∧ (relink p o n d evs).broken = false := by
+  unfold relink
+  cases (p.obj o).fwd n with
+  | some r => exact ⟨rfl, rfl⟩
+  | none =>
+    simp only []
+    have h2 := hook_snd p o n d
+    cases hh : hook p o n d with
+    | mk h bad =>
+      rw [hh] at h2
+      simp only at h2
+      subst h2
+      exact ⟨rfl, rfl⟩
+
+theorem setPlain_flags (E : Env) (k : Nat) (p : Pool) (x : ObjId) (t : Name) (vid : Nat) (dflt v : Val) :
+    (setPlain E k p x t vid dflt v).hookExc = 0 ∧ (setPlain E k p x t vid dflt v).broken = false := by
+  unfold setPlain; cases E.validate vid k v <;> exact ⟨rfl, rfl⟩
+
+theorem delPlain_flags (p : Pool) (x : ObjId) (t : Name) (dflt : Val) :
+    (delPlain p x t dflt).hookExc = 0 ∧ (delPlain p x t dflt).broken = false := by
+  unfold delPlain; cases (p.obj x).dict t <;> exact ⟨rfl, rfl⟩
+
+theorem delPython_flags (p : Pool) (x : ObjId) (t : Name) :
+    (delPython p x t).hookExc = 0 ∧ (delPython p x t).broken = false := by
+  unfold delPython; cases (p.obj x).dict t <;> exact ⟨rfl, rfl⟩
+
+/-- Through a deferring attribute: no exception is ever swallowed; the only way to raise after having
+changed the object is the `del` of a prototyped value whose read-back through the link fails. -/
+theorem setDefer_flags (E : Env) (k : Nat) (p : Pool) (o : ObjId) (n : Name) (d : DelegInfo) (v : Option Val) :
+    (setDefer E k p o n d v).hookExc = 0 ∧
+    ((setDefer E k p o n d v).broken = true →
+      v = none ∧ d.modify = false ∧ (p.obj o).dict n ≠ none ∧
+      ∃ e, read (p.setDict o n none) (p.setDict o n none).fuel o n = .error e) := by
+  unfold setDefer
+  cases hw : walk p (p.obj o).cls.pfx 100 o d n with
+  | error e => exact ⟨rfl, fun h => by cases h⟩
+  | ok r =>
+    obtain ⟨x, t, td⟩ := r
+    simp only []
+    cases hm : d.modify with
+    | true =>
+      simp only [if_true]
+      cases td with
+      | plain vid dflt =>
+        cases v with
+        | some v => exact ⟨(setPlain_flags ..).1, fun h => by rw [(setPlain_flags ..).2] at h; cases h⟩
+        | none => exact ⟨(delPlain_flags ..).1, fun h => by rw [(delPlain_flags ..).2] at h; cases h⟩
+      | python =>
+        cases v with
+        | some v => exact ⟨rfl, fun h => by cases h⟩
+        | none => exact ⟨(delPython_flags ..).1, fun h => by rw [(delPython_flags ..).2] at h; cases h⟩
+      | defer d' =>
+        cases v with
+        | some v => exact ⟨rfl, fun h => by cases h⟩
+        | none => exact ⟨(delPython_flags ..).1, fun h => by rw [(delPython_flags ..).2] at h; cases h⟩
+    | false =>
+      simp only [Bool.false_eq_true, if_false]
+      cases td with
+      | plain vid dflt =>
+        cases v with
+        | some v =>
+          simp only []
+          cases E.validate vid k v with
+          | error e => exact ⟨rfl, fun h => by cases h⟩
+          | ok w =>
+            simp only []
+            cases read p p.fuel o n with
+            | error e => exact ⟨rfl, fun h => by cases h⟩
+            | ok old => exact ⟨rfl, fun h => by cases h⟩
+        | none =>
+          simp only []
+          cases hdict : (p.obj o).dict n with
+          | none => exact ⟨(relink_flags ..).1, fun h => by rw [(relink_flags ..).2] at h; cases h⟩
+          | some old =>
+            simp only []
+            cases hr : read (p.setDict o n none) (p.setDict o n none).fuel o n with
+            | error e => exact ⟨rfl, fun _ => by simp⟩
+            | ok cur => exact ⟨(relink_flags ..).1, fun h => by rw [(relink_flags ..).2] at h; cases h⟩
+      | python =>
+        cases v with
+        | some v => exact ⟨rfl, fun h => by cases h⟩
+        | none =>
+          simp only []
+          cases (p.obj o).dict n with
+          | none => exact ⟨rfl, fun h => by cases h⟩
+          | some old => exact ⟨(relink_flags ..).1, fun h => by rw [(relink_flags ..).2] at h; cases h⟩
+      | defer d' =>
+        cases v with
+        | some v => exact ⟨rfl, fun h => by cases h⟩
+        | none =>
+          simp only []
+          cases (p.obj o).dict n with
+          | none => exact ⟨rfl, fun h => by cases h⟩
+          | some old => exact ⟨(relink_flags ..).1, fun h => by rw [(relink_flags ..).2] at h; cases h⟩
+
+/-- **No operation swallows a listener exception** (fix bead785), and only a `del` of a prototyped
+value whose read-back fails raises after changing the object. -/
+theorem step_flags (E : Env) (k : Nat) (p : Pool) (op : Op) :
+    (step E k p op).hookExc = 0 ∧
+    ((step E k p op).broken = true → ∃ o n d, op = .del o n ∧ (p.obj o).cls.trait n = .defer d ∧
+      d.modify = false ∧ (p.obj o).dict n ≠ none ∧
+      ∃ e, read (p.setDict o n none) (p.setDict o n none).fuel o n = .error e) := by
+  cases op with
+  | set o n v =>
+    simp only [step]
+    cases htd : (p.obj o).cls.trait n with
+    | plain vid dflt => exact ⟨(setPlain_flags ..).1, fun h => by rw [(setPlain_flags ..).2] at h; cases h⟩
+    | python => exact ⟨rfl, fun h => by cases h⟩
+    | defer d =>
+      obtain ⟨h1, h2⟩ := setDefer_flags E k p o n d (some v)
+      exact ⟨h1, fun h => by cases (h2 h).1⟩
+  | del o n =>
+    simp only [step]
+    cases htd : (p.obj o).cls.trait n with
+    | plain vid dflt => exact ⟨(delPlain_flags ..).1, fun h => by rw [(delPlain_flags ..).2] at h; cases h⟩
+    | python => exact ⟨(delPython_flags ..).1, fun h => by rw [(delPython_flags ..).2] at h; cases h⟩
+    | defer d =>
+      obtain ⟨h1, h2⟩ := setDefer_flags E k p o n d none
+      exact ⟨h1, fun h => ⟨o, n, d, by first | rfl | trivial, by first | exact htd | trivial, (h2 h).2⟩⟩
+  | swap o t =>
+    simp only [step, swap]
+    by_cases h : (p.obj o).deleg = t
+    · simp only [h, if_true]; exact ⟨by first | rfl | trivial, fun h => by simp at h⟩
+    · simp only [h, if_false]; exact ⟨rehook_snd .., fun h => by simp at h⟩
+  | read o n =>
+    simp only [step]
+    cases read p p.fuel o n <;> exact ⟨rfl, fun h => by cases h⟩
+
 end TraitsVerif.Model.Deleg
